@@ -128,10 +128,11 @@ pub fn exec_op(op: &Op, handles: &mut Handles, slots: &Slots) -> String {
         Op::Publish { slot, version, kind, form, text, compile } => {
             match make_handle(*kind, *form, text, *compile) {
                 Ok(h) => {
-                    let old = {
+                    // harness lock: no scheduling point may fall inside (a parked holder would block others for real)
+                    let old = crate::sched::suspended(|| {
                         let mut g = slots.lock().unwrap_or_else(|e| e.into_inner());
                         g.get_mut(*slot).and_then(|s| s.replace((*version, h)))
-                    };
+                    });
                     drop(old);
                     "published".to_string()
                 }
@@ -139,10 +140,10 @@ pub fn exec_op(op: &Op, handles: &mut Handles, slots: &Slots) -> String {
             }
         }
         Op::EvalSlot { slot, point, mode } => {
-            let cur = {
+            let cur = crate::sched::suspended(|| {
                 let g = slots.lock().unwrap_or_else(|e| e.into_inner());
                 g.get(*slot).cloned().flatten()
-            };
+            });
             match cur {
                 Some((v, h)) => {
                     // the version tag must survive a panicking evaluation (natural operator panics are
@@ -158,10 +159,10 @@ pub fn exec_op(op: &Op, handles: &mut Handles, slots: &Slots) -> String {
             }
         }
         Op::Unpublish { slot } => {
-            let old = {
+            let old = crate::sched::suspended(|| {
                 let mut g = slots.lock().unwrap_or_else(|e| e.into_inner());
                 g.get_mut(*slot).and_then(|s| s.take())
-            };
+            });
             drop(old);
             "unpublished".to_string()
         }
@@ -295,15 +296,22 @@ pub struct ExecCfg {
     pub hang_ms: u64,
     /// 0 = off; k = every k-th allocation of a simulated thread is a scheduling point
     pub alloc_every: u32,
+    /// 0 = off; mean gap between basic-block / load-store scheduling points (sim_bb build only)
+    pub bb_gap: u32,
+    pub bb_seed: u64,
 }
 impl Default for ExecCfg {
     fn default() -> Self {
-        ExecCfg { max_steps: 30_000, stall_ms: 1500, hang_ms: 10_000, alloc_every: 0 }
+        ExecCfg { max_steps: 30_000, stall_ms: 1500, hang_ms: 10_000, alloc_every: 0, bb_gap: 0, bb_seed: 0 }
     }
 }
 impl ExecCfg {
     pub fn with_alloc(alloc_every: u32) -> Self {
         ExecCfg { alloc_every, max_steps: if alloc_every > 0 { 80_000 } else { 30_000 }, ..Default::default() }
+    }
+    pub fn with_seams(alloc_every: u32, bb_gap: u32, bb_seed: u64) -> Self {
+        let fine = alloc_every > 0 || bb_gap > 0;
+        ExecCfg { alloc_every, bb_gap, bb_seed, max_steps: if fine { 120_000 } else { 30_000 }, ..Default::default() }
     }
 }
 
@@ -336,7 +344,7 @@ fn concurrent_impl(
     give_away: Option<Handles>,
 ) -> (Vec<Vec<Obs>>, Vec<Violation>, SimReport, bool) {
     let n = w.threads.len();
-    let sim = Sim::new(n, source, w.faults.clone(), cfg.max_steps, cfg.alloc_every);
+    let sim = Sim::new(n, source, w.faults.clone(), cfg.max_steps, cfg.alloc_every, cfg.bb_gap, cfg.bb_seed);
     let w_arc = Arc::new(w.clone());
     let slots = new_slots();
     let check_each = n == 1;
